@@ -13,7 +13,7 @@ sys.path.insert(0, os.path.join(VERIF, 'gen'))
 REPO = os.environ.get('VERIF_REPO', '/repo')
 BUILD = os.path.join(VERIF, 'build')
 # evidence of runs against a scratch tree (VERIF_REPO) must not overwrite the evidence of /repo
-EVID = os.path.join(VERIF, 'evidence') if REPO == '/repo' else os.path.join(VERIF, 'evidence', 'tmp', 'scratch')
+EVID = os.path.join(VERIF, 'evidence') if REPO == '/repo' else os.path.join(VERIF, 'evidence', 'tmp', 'scratch_' + os.path.basename(REPO.rstrip('/')))
 CFGS = {'b': 1, 'bc': 2, 'bq': 3, 'b11': 4, 'm': 5, 'mf': 6, 'mc': 7}
 
 _tree_hash = None
